@@ -507,3 +507,24 @@ Example C17_ex_detection :
         (1, [mkPart 50000 50600 1], [mkPart 49000 51600 1]);
         (0, [mkPart 4000 4600 1], [mkPart 3000 5600 1])].
 Proof. split; [vm_compute; reflexivity|]. split; [exact DetP.en_rev_enumerates|vm_compute; reflexivity]. Qed.
+
+
+(* ---- hmm_detection.get_ruleset limited to rule names: the rules handed out are the named rules of the files in FILE
+   order; only membership is asked of the set of names, so its enumeration (PYTHONHASHSEED) cannot show.  Fetching the
+   rules while iterating the set (seeded defect of round 5) gives the enumeration order *)
+Theorem C17_ruleset_selection_order_independent : forall n en en', (forall x, In x en <-> In x en') ->
+  select_rules n en = select_rules n en'.
+Proof. exact select_rules_ext_proof. Qed.
+Print Assumptions C17_ruleset_selection_order_independent.
+
+Theorem C17_ruleset_selection_spec : forall n en i, In i (select_rules n en) <-> (0 <= i < n /\ In i en).
+Proof. exact select_rules_spec_proof. Qed.
+Print Assumptions C17_ruleset_selection_spec.
+
+Theorem C17_ruleset_selection_in_set_order_refuted : exists n en en', (forall x, In x en <-> In x en') /\
+  select_in_set_order n en <> select_in_set_order n en' /\ select_rules n en = select_rules n en'.
+Proof. exact select_in_set_order_refuted_proof. Qed.
+Print Assumptions C17_ruleset_selection_in_set_order_refuted.
+
+Example C17_ex_ruleset_selection : select_rules 6 [4; 1; 4; 2] = [1; 2; 4].
+Proof. vm_compute. reflexivity. Qed.
